@@ -899,7 +899,9 @@ switch_channel(struct caption *cc, cc_channel *ch, int new_chan)
 {
 	word_break(cc, ch, 1); // we leave for a number of frames
 
-	return &cc->channel[cc->curr_chan = new_chan];
+	/* Each field is an independent data stream with its own
+	   current data channel and caption / text mode. */
+	return &cc->channel[cc->curr_chan[(new_chan >> 1) & 1] = new_chan];
 }
 
 static void
@@ -940,7 +942,7 @@ caption_command(vbi_decoder *vbi, struct caption *cc,
 	int chan, col, i;
 	int last_row;
 
-	chan = (cc->curr_chan & 4) + field2 * 2 + ((c1 >> 3) & 1);
+	chan = (cc->curr_chan[field2] & 4) + field2 * 2 + ((c1 >> 3) & 1);
 	ch = &cc->channel[chan];
 
 	c1 &= 7;
@@ -1383,7 +1385,7 @@ vbi_decode_caption(vbi_decoder *vbi, int line, uint8_t *buf)
 			fflush(stdout);
 		)
 
-		ch = &cc->channel[(cc->curr_chan & 5) + field2 * 2];
+		ch = &cc->channel[(cc->curr_chan[field2] & 5) + field2 * 2];
 
 		/* 47 CFR 15.119 (i)(1): Only a control code transmitted
 		   "twice in succession" is a repetition, not one which
